@@ -66,10 +66,21 @@ type vconn struct {
 	tlsFail      bool
 	tlsHandshake int
 	tlsFinal     error
+	// deadline bookkeeping: is a deadline armed for a direction, and how many
+	// reads / writes of the plaintext and of the TLS phase ran under one
+	rdArmed, wrArmed        bool
+	plainRd, plainRdArmed   int
+	plainWr, plainWrArmed   int
+	insideRd, insideRdArmed int
+	insideWr, insideWrArmed int
 }
 
 func (c *vconn) Read(b []byte) (int, error) {
 	c.reads++
+	c.plainRd++
+	if c.rdArmed {
+		c.plainRdArmed++
+	}
 	if c.closed {
 		return 0, net.ErrClosed
 	}
@@ -134,6 +145,10 @@ func (c *vconn) Read(b []byte) (int, error) {
 }
 
 func (c *vconn) Write(b []byte) (int, error) {
+	c.plainWr++
+	if c.wrArmed {
+		c.plainWrArmed++
+	}
 	if c.closed {
 		return 0, net.ErrClosed
 	}
@@ -162,11 +177,22 @@ func (c *vconn) release() {
 		close(c.hold)
 	}
 }
-func (c *vconn) LocalAddr() net.Addr                { return verifAddr{} }
-func (c *vconn) RemoteAddr() net.Addr               { return verifAddr{} }
-func (c *vconn) SetDeadline(t time.Time) error      { c.expired = false; return nil }
-func (c *vconn) SetReadDeadline(t time.Time) error  { c.expired = false; return nil }
-func (c *vconn) SetWriteDeadline(t time.Time) error { return nil }
+func (c *vconn) LocalAddr() net.Addr  { return verifAddr{} }
+func (c *vconn) RemoteAddr() net.Addr { return verifAddr{} }
+func (c *vconn) SetDeadline(t time.Time) error {
+	c.expired = false
+	c.rdArmed, c.wrArmed = !t.IsZero(), !t.IsZero()
+	return nil
+}
+func (c *vconn) SetReadDeadline(t time.Time) error {
+	c.expired = false
+	c.rdArmed = !t.IsZero()
+	return nil
+}
+func (c *vconn) SetWriteDeadline(t time.Time) error {
+	c.wrArmed = !t.IsZero()
+	return nil
+}
 
 // TLS stub hooks: the engine's crypto/tls intrinsics route a *tls.Conn that
 // wraps a vconn to these methods.
@@ -178,6 +204,10 @@ func (c *vconn) verifTLSHandshake() error {
 	return nil
 }
 func (c *vconn) verifTLSRead(b []byte) (int, error) {
+	c.insideRd++
+	if c.rdArmed {
+		c.insideRdArmed++
+	}
 	if c.closed {
 		return 0, net.ErrClosed
 	}
@@ -192,6 +222,10 @@ func (c *vconn) verifTLSRead(b []byte) (int, error) {
 	return n, nil
 }
 func (c *vconn) verifTLSWrite(b []byte) (int, error) {
+	c.insideWr++
+	if c.wrArmed {
+		c.insideWrArmed++
+	}
 	if c.closed {
 		return 0, net.ErrClosed
 	}
